@@ -50,12 +50,4 @@ Definition canonical (needs_prefix terrain : bool) (isrel : list N -> bool) (p :
 
 Definition canonical_posix (np terrain : bool) (p : list N) : bool := canonical np terrain isrel_posix p.
 
-(* adjacent different separators ("/\" or "\/"): the input class on which the slash clean-up leaves
-   a double backslash *)
-Fixpoint mixed (p : list N) : bool :=
-  match p with
-  | [] => false
-  | a :: r => (is_sep a && match r with b :: _ => is_sep b && negb (a =? b) | [] => false end) || mixed r
-  end.
-
 Definition all_space (p : list N) : bool := forallb is_space p.
